@@ -287,5 +287,7 @@ pub fn run(r: &mut Runner) {
         let bases: Vec<[f64; 2]> = vec![[1.5, 1e-17], [0.3, 0.0], [4.0, -1e-16], [2.5, 0.0], [100.5, 3e-15], [0.7853981633974483, 3.061616997868383e-17], [-7.0, 2e-16], [1e5, 1e-12]];
         let groups = crate::hist::unary_groups(&[Op::sin, Op::cos], &bases, [0.9, 1e-18]);
         crate::hist::explore(r, "histories: sin/cos/tan/sin_cos", &groups, 3, &hist_judge, 14u64 << 55);
+        // cross-family histories: the same judged calls, preceded by every other public function on the same operands
+        crate::hist::explore_mixed(r, "cross-family histories: any public call, then sin/cos/tan/sin_cos", &groups[..groups.len().min(2)], 2, &hist_judge, (14u64 << 55) + (1u64 << 53));
     }
 }
